@@ -23,6 +23,7 @@ fn main() {
     let code = match args[1].as_str() {
         "replay" => replay::main(&args[2..]),
         "replay1" => replay::main_one(&args[2..]),
+        "replay-child" => replay::main_child(&args[2..]),
         "record" => record::main(&args[2..]),
         "dump" => dump::main(&args[2..]),
         other => {
